@@ -326,12 +326,13 @@ def work_logic(lname):
 def _sound_chunk(job):
     lname, argstrs, opts = job
     from pytableaux.lang import Argument
-    from bounded import prover as P
+    from bounded import prover as P, args as A_
     logic = RS.registry()(lname)
     sem = S.spec_of(logic.Meta.name)
     out = []; n = 0
     for i, astr in enumerate(argstrs):
         arg = Argument(astr)
+        if i % 5 == 4: arg = A_.hostile(arg)         # every fifth argument: no two equal sentences/parameters share an object
         o, tab = P.outcome(logic, arg, **opts[i % len(opts)])
         n += 1
         if o == 'valid':
